@@ -35,6 +35,11 @@ type Space struct {
 	Serial bool
 	// HangSecs overrides the worker watchdog (default 20).
 	HangSecs int
+	// Binary, when set, is the executable used for the worker processes of
+	// this space (the -race build of the same program).
+	Binary string
+	// Env is added to the environment of the worker processes.
+	Env []string
 }
 
 // Check is everything registered for one property.
@@ -783,8 +788,12 @@ func (r *Runner) runWorker(sp *Space, lvl, i, k int, resume, tmp string) workerR
 	pr, pw, _ := os.Pipe()
 	errPath := filepath.Join(tmp, fmt.Sprintf("err%d", i))
 	errF, _ := os.Create(errPath)
-	cmd := exec.Command(os.Args[0], "worker", r.Check.Property, r.Tier, sp.Name, strconv.Itoa(lvl), strconv.Itoa(i), strconv.Itoa(k), resume)
-	cmd.Env = append(os.Environ(),
+	exe := os.Args[0]
+	if sp.Binary != "" {
+		exe = sp.Binary
+	}
+	cmd := exec.Command(exe, "worker", r.Check.Property, r.Tier, sp.Name, strconv.Itoa(lvl), strconv.Itoa(i), strconv.Itoa(k), resume)
+	cmd.Env = append(append(os.Environ(), sp.Env...),
 		"VCHECK_SHM="+shmPath,
 		"VCHECK_BITMAP="+filepath.Join(tmp, fmt.Sprintf("bm%d", i)),
 		"VCHECK_DEADLINE="+strconv.FormatInt(r.Deadline.Unix(), 10),
@@ -869,8 +878,12 @@ func fatalClass(stderr string) (string, string) {
 // counted as unconfirmed and the space as not exhaustive; never an alarm).
 func (r *Runner) attribute(sp *Space, lvl int, res workerResult) bool {
 	limit := 60 * time.Second
-	cmd := exec.Command(os.Args[0], "exec1", r.Check.Property, r.Tier, sp.Name, res.culprit)
-	cmd.Env = append(os.Environ(), "GOMAXPROCS=2", "GOTRACEBACK=all", "VCHECK_HANG_SAMPLER=1")
+	exe := os.Args[0]
+	if sp.Binary != "" {
+		exe = sp.Binary
+	}
+	cmd := exec.Command(exe, "exec1", r.Check.Property, r.Tier, sp.Name, res.culprit)
+	cmd.Env = append(append(os.Environ(), sp.Env...), "GOMAXPROCS=2", "GOTRACEBACK=all", "VCHECK_HANG_SAMPLER=1")
 	var out strings.Builder
 	cmd.Stdout = &out
 	cmd.Stderr = &out
@@ -921,14 +934,66 @@ func (r *Runner) attribute(sp *Space, lvl int, res workerResult) bool {
 		f.Message = fmt.Sprintf("execution made no progress for the watchdog period in the batch and did not finish within 30 s alone; stuck in %s", fn)
 		f.Detail["goroutine_dump"] = truncate(dump, 4000)
 	} else {
-		cls, line := fatalClass(dump + "\n" + res.stderr)
-		fn := stuckFunc(dump)
-		f.Signature = "fatal|" + cls + "|" + fn
-		f.Message = "process died: " + line
-		f.Detail["stderr"] = truncate(dump, 4000)
+		if a, b, ok := raceSites(dump); ok {
+			f.Signature = "race|" + a + "|" + b
+			f.Message = "the race detector reported a data race between " + a + " and " + b + " in this schedule"
+			f.Detail["race_report"] = truncate(dump, 6000)
+		} else {
+			cls, line := fatalClass(dump + "\n" + res.stderr)
+			fn := stuckFunc(dump)
+			f.Signature = "fatal|" + cls + "|" + fn
+			f.Message = "process died: " + line
+			f.Detail["stderr"] = truncate(dump, 4000)
+		}
 	}
 	r.addFail(f)
 	return true
+}
+
+// raceSites extracts the innermost module functions of the two accesses of
+// the first race report in the output.
+func raceSites(dump string) (string, string, bool) {
+	i := strings.Index(dump, "WARNING: DATA RACE")
+	if i < 0 {
+		return "", "", false
+	}
+	rep := dump[i:]
+	if j := strings.Index(rep, "=================="); j > 0 {
+		rep = rep[:j]
+	}
+	var sites []string
+	for _, blk := range strings.Split(rep, "\n\n") {
+		head := strings.TrimSpace(strings.SplitN(blk, "\n", 2)[0])
+		if !(strings.HasPrefix(head, "Write at") || strings.HasPrefix(head, "Read at") || strings.HasPrefix(head, "Previous write at") || strings.HasPrefix(head, "Previous read at") || strings.HasPrefix(head, "WARNING: DATA RACE")) {
+			continue
+		}
+		fn := "?"
+		for _, line := range strings.Split(blk, "\n") {
+			line = strings.TrimSpace(line)
+			if strings.HasPrefix(line, ModulePath) && !strings.Contains(line, "/verifshim/") {
+				fn = strings.TrimPrefix(line, ModulePath+"/")
+				if k := strings.LastIndex(fn, "("); k > 0 {
+					fn = fn[:k]
+				}
+				if k := strings.Index(fn, ".func"); k > 0 {
+					fn = fn[:k]
+				}
+				break
+			}
+		}
+		if strings.HasPrefix(head, "WARNING") && fn == "?" {
+			continue
+		}
+		sites = append(sites, fn)
+	}
+	for len(sites) < 2 {
+		sites = append(sites, "?")
+	}
+	a, b := sites[0], sites[1]
+	if b < a {
+		a, b = b, a
+	}
+	return a, b, true
 }
 
 // hangSampler decides, inside a single-execution process, that the execution
@@ -1093,7 +1158,7 @@ func (r *Runner) finish(start time.Time, allExh bool) int {
 			continue
 		}
 		// determinism: in-process failures are replayed twice
-		if !strings.HasPrefix(sig, "hang|") && !strings.HasPrefix(sig, "fatal|") {
+		if !strings.HasPrefix(sig, "hang|") && !strings.HasPrefix(sig, "fatal|") && !strings.HasPrefix(sig, "race|") {
 			sp := spaceByName[f.Space]
 			d, _ := ParseDevList(f.Devs)
 			for k := 0; k < 2; k++ {
